@@ -1047,3 +1047,180 @@ def _c10_judge_instructions(ctx: Ctx, sim, instrs, who: str) -> List[Violation]:
 
 def c10_initial(world, sim) -> List[Violation]:
     return [Violation("C10", c, d + ("initial",), m) for c, d, m in c10_state(sim)]
+
+
+# ---------------------------------------------------------------------------------------------------
+# C06 -- continuous movement, no faster than the road allows.
+# Everything is reconstructed from the route stored before and after the step, never from the traversal code.
+
+
+def _gc_km(a: str, b: str) -> float:
+    from .worlds import gc_km
+
+    return gc_km(a, b)
+
+
+def _gt_speed(rn, link_id: str, fallback: float) -> float:
+    try:
+        l = rn.link_from_link_id(link_id)
+        return float(l.speed_kmph) if l is not None and l.speed_kmph > 0 else fallback
+    except Exception:
+        return fallback
+
+
+def net_vmax(rn) -> float:
+    """fastest link of the network (40 km/h on the straight-line network)"""
+    v = getattr(rn, "_hivemc_vmax", None)
+    if v is None:
+        if hasattr(rn, "link_helper"):
+            v = max(float(l.speed_kmph) for l in rn.link_helper.links.values())
+        else:
+            v = float(getattr(rn, "_AVG_SPEED_KMPH", 40.0))
+        try:
+            rn._hivemc_vmax = v
+        except Exception:
+            pass
+    return v
+
+
+def nominal_seconds(rn, route) -> float:
+    return sum(l.distance_km / _gt_speed(rn, l.link_id, l.speed_kmph) * 3600.0 for l in route if l.start != l.end)
+
+
+def c06_vehicle_step(rn, a, b, move_events, step_s: float) -> List[Tuple[str, tuple, str]]:
+    """a, b: the vehicle before / after one step in which no instruction changed its activity.
+    returns [(clause, discriminators, message)]"""
+    out = []
+    sa, sb = a.vehicle_state, b.vehicle_state
+    na, nb = sa.__class__.__name__, sb.__class__.__name__
+    vid = a.id
+    dodo = b.distance_traveled_km - a.distance_traveled_km
+    ev_dist = sum(float(e["distance_km"]) for e in move_events)
+    moved = b.geoid != a.geoid
+    if abs(dodo - ev_dist) > 1e-9:
+        out.append(("odometer_vs_event", (na,), f"vehicle {vid}: odometer grew by {dodo}, move events say {ev_dist}"))
+    if not move_events and (moved or abs(dodo) > 1e-12):
+        out.append(("moved_without_event", (na,), f"vehicle {vid} moved {a.geoid}->{b.geoid} / odometer +{dodo} without a move event"))
+    travelling = na in TRAVEL and hasattr(sa, "route")
+    if not travelling:
+        if moved or abs(dodo) > 1e-12:
+            out.append(("moved_while_not_travelling", (na, nb), f"vehicle {vid} is {na} and moved {a.geoid}->{b.geoid} (odometer +{dodo})"))
+        return out
+    R = tuple(sa.route)
+    same_activity = nb == na and getattr(sb, "instance_id", None) == getattr(sa, "instance_id", None)
+    if not same_activity:
+        # left the activity in this step (arrival default transition, or ran dry): the pre-route must have been used up,
+        # except DispatchTrip -> ServicingTrip, which moves along a *new* route in the same step (judged by speed only)
+        if nb == "OutOfService":
+            if moved or abs(dodo) > 1e-12:
+                out.append(("moved_without_energy", (na,), f"vehicle {vid} went out of service but moved"))
+            return out
+        if len(R) > 0 and not (R[0].start == R[-1].end == a.geoid):
+            # an activity may only be left on arrival (or by instruction, which the caller filtered out)
+            out.append(("left_before_arrival", (na, nb), f"vehicle {vid} left {na} with {len(R)} links remaining"))
+        if nb in TRAVEL and hasattr(sb, "route"):
+            vmax = net_vmax(rn)
+            if _gc_km(a.geoid, b.geoid) > vmax * step_s / 3600.0 + 0.002:
+                out.append(("too_fast", (na + ">" + nb,), f"vehicle {vid} covered {_gc_km(a.geoid, b.geoid):.4f} km in {step_s} s at most {vmax} km/h"))
+        elif moved:
+            out.append(("moved_after_arrival", (na, nb), f"vehicle {vid} moved while leaving {na}"))
+        return out
+    Rp = tuple(sb.route)
+    if len(R) == 0:
+        if len(Rp) != 0 or moved:
+            out.append(("moved_with_empty_route", (na,), f"vehicle {vid} {na} had no route left and moved / grew a route"))
+        # leaves the travelling activity within one step of arriving
+        out.append(("stuck_after_arrival", (na,), f"vehicle {vid} stays {na} although nothing remains of its route"))
+        return out
+    # closed-loop suffix: the vehicle already stands on the route's final cell -> the suffix is dropped, no movement
+    if len(Rp) == 0 and not moved and R[0].start == R[-1].end == a.geoid:
+        if abs(dodo) > 1e-12:
+            out.append(("odometer_without_move", (na,), f"vehicle {vid} did not move, odometer +{dodo}"))
+        return out
+    # align: Rp must be R[k:] with, possibly, a new start cell on its first link
+    k = None
+    for cand in range(0, len(R) + 1):
+        tail = R[cand:]
+        if len(tail) != len(Rp):
+            continue
+        if not tail:
+            k = cand
+            break
+        if tail[0].link_id == Rp[0].link_id and tail[0].end == Rp[0].end and all(x == y for x, y in zip(tail[1:], Rp[1:])):
+            k = cand
+            break
+    if k is None:
+        out.append(("route_not_suffix", (na,), f"vehicle {vid}: the remaining route {[l.link_id for l in Rp]} is not a suffix of {[l.link_id for l in R]} (same links, same order, same destination)"))
+        return out
+    whole = R[:k]
+    piece = None
+    if Rp and Rp[0].start != R[k].start:
+        piece = (R[k], R[k].start, Rp[0].start)
+    # junction
+    if Rp:
+        if b.geoid != Rp[0].start:
+            out.append(("junction", (na,), f"vehicle {vid} stands on {b.geoid}, the remaining route starts on {Rp[0].start}"))
+    else:
+        if b.geoid != R[-1].end:
+            out.append(("junction", (na, "arrival"), f"vehicle {vid} used up its route but stands on {b.geoid}, the route ended on {R[-1].end}"))
+    if moved and b.position.link_id not in {l.link_id for l in R}:
+        out.append(("position_link", (na,), f"vehicle {vid} position names link {b.position.link_id}, not a link of its route"))
+    if Rp and Rp[-1].end != R[-1].end:
+        out.append(("destination_changed", (na,), f"vehicle {vid}: route destination changed {R[-1].end} -> {Rp[-1].end}"))
+    # time
+    t = 0.0
+    dist = 0.0
+    slowest = 1000.0
+    for l in whole:
+        if l.start == l.end:
+            continue
+        sp = _gt_speed(rn, l.link_id, l.speed_kmph)
+        slowest = min(slowest, sp)
+        t += int(l.distance_km / sp * 3600.0)
+        dist += l.distance_km
+    if piece is not None:
+        l, p0, p1 = piece
+        sp = _gt_speed(rn, l.link_id, l.speed_kmph)
+        slowest = min(slowest, sp)
+        g = _gc_km(p0, p1)
+        t += g / sp * 3600.0
+        dist += g
+    slack = 0.001 / max(min(slowest, 1000.0), 1e-9) * 3600.0 if slowest < 1000.0 else 0.0
+    if t > step_s + slack + 1e-6:
+        out.append(("too_fast", (na,), f"vehicle {vid} drove links worth {t:.2f} s of travel time in a {step_s} s step"))
+    if abs(dodo - dist) > 1e-9:
+        out.append(("odometer_vs_route", (na,), f"vehicle {vid}: odometer grew by {dodo}, the driven part of the route measures {dist}"))
+    # progress
+    if nb != "OutOfService" and nominal_seconds(rn, Rp) >= nominal_seconds(rn, R) - 1e-9:
+        out.append(("no_progress", (na,), f"vehicle {vid}: remaining nominal travel time {nominal_seconds(rn, R):.3f} s -> {nominal_seconds(rn, Rp):.3f} s"))
+    return out
+
+
+def c06_transition(ctx: Ctx) -> List[Violation]:
+    out: List[Violation] = []
+    instructed = ctx.instructed()
+    step_s = ctx.pre.sim_timestep_duration_seconds
+    moves: Dict[str, list] = {}
+    for r in ctx.of_type("VEHICLE_MOVE_EVENT"):
+        moves.setdefault(r["vehicle_id"], []).append(r)
+    rn = ctx.post.road_network
+    for vid, b in ctx.post.vehicles.items():
+        a = ctx.pre.vehicles.get(vid)
+        if a is None:
+            continue
+        sa, sb = a.vehicle_state, b.vehicle_state
+        if vid in instructed and (type(sa) is not type(sb) or getattr(sa, "instance_id", 0) != getattr(sb, "instance_id", 0)):
+            # a new activity was entered by instruction; its initial route is not in the pre-state: speed bound only
+            ctx.cov["c06:instructed_this_step"] += 1
+            vmax = net_vmax(rn)
+            if _gc_km(a.geoid, b.geoid) > vmax * step_s / 3600.0 + 0.002:
+                out.append(Violation("C06", "too_fast", ("after_instruction",), f"vehicle {vid} covered {_gc_km(a.geoid, b.geoid):.4f} km in one {step_s} s step"))
+            continue
+        if sname(a) in TRAVEL:
+            ctx.cov[f"c06:judged:{sname(a)}"] += 1
+            if b.geoid != a.geoid and len(getattr(sb, "route", ())) > 0 and sname(b) == sname(a):
+                ctx.cov["c06:mid_link_split"] += 1
+        for clause, disc, msg in c06_vehicle_step(rn, a, b, moves.get(vid, []), step_s):
+            full = "battery_full" if clause == "stuck_after_arrival" and ctx.env.mechatronics[a.mechatronics_id].is_full(a) else ""
+            out.append(Violation("C06", clause, disc + ((full,) if full else ()), msg))
+    return out
